@@ -739,6 +739,23 @@ func (env *SpecEnv) call(n *ast.CallExpr) Value {
 	case "os2ipv":
 		need(1)
 		return env.os2ipv(env.sliceOf(env.eval(args[0]), args[0]))
+	case "samebytes":
+		// samebytes(x, y): the two byte slices (constant lengths in the current variant) have the same length and the
+		// same contents, position by position -- literally the engine-level model of bytes.Equal /
+		// subtle.ConstantTimeCompare used at call sites (builtins.go), so that the contract in spec/deps.spec restates it
+		need(2)
+		a, b := env.sliceOf(env.eval(args[0]), args[0]), env.sliceOf(env.eval(args[1]), args[1])
+		if a.reg == nil || b.reg == nil || !a.length.IsConst() || !b.length.IsConst() {
+			env.fail("samebytes needs slices of constant length in this variant")
+		}
+		if a.length.Val.Cmp(b.length.Val) != 0 {
+			return tFalse
+		}
+		var cs []*Term
+		for i := int64(0); i < a.length.Val.Int64(); i++ {
+			cs = append(cs, mkEq(env.e.sliceElem(env.state(), a, mkInt64(i)), env.e.sliceElem(env.state(), b, mkInt64(i))))
+		}
+		return mkAnd(cs...)
 	case "fp":
 		need(1)
 		return mkToRing(SFp, env.term(args[0]))
